@@ -79,6 +79,9 @@ func harnessC28Flooder() {
 	}
 	if !acted {
 		verif_assert(len(snd.log) == 0, "C28/rejected-command-forwarded")
+		// nor is it kept for a peer that connects later
+		f.OnPeerConnected(fID(1))
+		verif_assert(len(snd.log) == 0, "C28/rejected-command-forwarded-to-a-peer-connecting-later")
 	}
 	if valid && !zero && inWindow {
 		verif_assert(acted, "C28/valid-command-rejected")
@@ -88,7 +91,8 @@ func harnessC28Flooder() {
 // C29: a validly signed command is acted on at most once: replay after
 // arbitrary cache maintenance and forged traffic, at any later instant.
 func harnessC29Replay() {
-	f, _, pub := fSigned(1 + verif_choose(2))
+	maxCache := 1 + verif_choose(2)
+	f, _, pub := fSigned(maxCache)
 	t0 := verif_nondet_i64()
 	verif_assume(t0 > 1000*fSec && t0 < (1<<31)*fSec)
 	verif_set_now(t0)
@@ -128,8 +132,18 @@ func harnessC29Replay() {
 	case 0:
 		verif_assert(!again, "C29/replay-accepted-without-any-maintenance")
 	case 1:
-		verif_assert(!again, "C29/replay-accepted-after-forged-traffic-evicted-the-entry")
+		// two entries (genuine + forged) and no time-based expiry
+		if 2 > maxCache {
+			verif_assert(!again, "C29/replay-accepted-after-forged-traffic-evicted-the-entry")
+		} else {
+			verif_assert(!again, "C29/replay-accepted-after-cleanup-of-a-cache-within-its-size-limit")
+		}
 	case 2:
-		verif_assert(!again, "C29/replay-accepted-after-cache-entry-expired-inside-the-window")
+		// one entry: cleanup may only drop it by age
+		if dt > int64(f.cfg.SeenCacheTTL) {
+			verif_assert(!again, "C29/replay-accepted-after-cache-entry-expired-inside-the-window")
+		} else {
+			verif_assert(!again, "C29/replay-accepted-after-cleanup-before-the-entry-expired")
+		}
 	}
 }
